@@ -5,3 +5,4 @@ import KojenVerif.Props.C04
 #print axioms KojenVerif.C04.C04_other_expansions_irrelevant
 #print axioms KojenVerif.C02.C02_chain
 #print axioms KojenVerif.C01.C01_each_block_once_in_order
+#print axioms KojenVerif.C04.C04_new_file_starts_clean
